@@ -108,22 +108,24 @@ fn ngd_index(kind: u32, entries: &[(String, u8, u64)]) -> Vec<u8> {
 }
 fn ngd_mixed_case(p: &str, k: usize) -> String { p.chars().enumerate().map(|(i, c)| if (i + k) % 3 == 0 { c.to_ascii_uppercase() } else { c }).collect() }
 
-//@unit props=C01 label=B tier=quick native=1 fn=gamedata::GameData::{from_existing,exists,find_offset,find_entry,get_index_filenames,parse_repository_category},sqpack::index::SqPackIndex::{from_existing,find_entry,exists,calculate_hash} bound="by execution on temporary installations: base + ex1 + ex2 repositories, 5 categories, chunks 0, 1 and 10, every combination of .index only / .index2 only / both with the same entries / both with disjoint halves of the entries, 1..9 entries per index spread over dat0..dat7 with offsets up to 0x7_FFFF_FF80; every stored path queried in lower and two mixed cases, 12 absent paths, three query orders on one handle"
+//@unit props=C01 label=B tier=quick native=1 fn=gamedata::GameData::{from_existing,exists,find_offset,find_entry,get_index_filenames,parse_repository_category},sqpack::index::SqPackIndex::{from_existing,find_entry,exists,calculate_hash} bound="by execution on temporary installations: base + ex1 + ex2 + ex10 repositories (ex1 and ex10 share their index file names), 5 categories, chunks 0, 1 and 10, every combination of .index only / .index2 only / both with the same entries / both with disjoint halves of the entries, 1..9 entries per index spread over dat0..dat7 with offsets up to 0x7_FFFF_FF80; every stored path queried in lower and two mixed cases, 12 absent paths, three query orders on one handle"
 //@desc a path exists and resolves exactly when an index of the repository and category it names (any chunk) holds its hash; the answer ignores letter case, is the data file and offset of the index entry (every entry of an index2 file included), and does not depend on earlier queries on the same handle
 #[test]
 fn native_gamedata_lookup() {
     let mut cases = 0u64;
     let offs: [u64; 9] = [0x80, 0x100, 0x0370_0B00, 0xFFFF_FF80, 0x1_0000_0000, 0x1_2345_6780, 0x7_FFFF_FF80, 0x2000, 0x4_0000_0080];
     // (category prefix, category id, repository token or "", repository dir, expansion number)
-    let places: [(&str, u32, &str, &str, u32); 6] = [("exd", 0x0a, "", "ffxiv", 0), ("chara", 0x04, "", "ffxiv", 0), ("bg", 0x02, "ffxiv", "ffxiv", 0), ("bg", 0x02, "ex1", "ex1", 1), ("music", 0x0c, "ex2", "ex2", 2), ("common", 0x00, "", "ffxiv", 0)];
+    // "ex10" sits next to "ex1": its directory name yields the same expansion digit, hence the SAME index file names in a different directory
+    let places: [(&str, u32, &str, &str, u32); 7] = [("exd", 0x0a, "", "ffxiv", 0), ("chara", 0x04, "", "ffxiv", 0), ("bg", 0x02, "ffxiv", "ffxiv", 0), ("bg", 0x02, "ex1", "ex1", 1), ("music", 0x0c, "ex2", "ex2", 2), ("common", 0x00, "", "ffxiv", 0), ("bg", 0x02, "ex10", "ex10", 1)];
     for layout in 0..4usize { // 0: .index only, 1: .index2 only, 2: both with the same entries, 3: both, each holding a different half of the chunk's entries
         let root = std::env::temp_dir().join(format!("physis-verif-c01-{}-{layout}", std::process::id()));
         let _ = std::fs::remove_dir_all(&root);
         let game = root.join("game");
-        for d in ["ffxiv", "ex1", "ex2"] { std::fs::create_dir_all(game.join("sqpack").join(d)).unwrap(); }
+        for d in ["ffxiv", "ex1", "ex2", "ex10"] { std::fs::create_dir_all(game.join("sqpack").join(d)).unwrap(); }
         std::fs::write(game.join("ffxivgame.ver"), "2023.09.28.0000.0000").unwrap();
         std::fs::write(game.join("sqpack/ex1/ex1.ver"), "2023.09.28.0000.0000").unwrap();
         std::fs::write(game.join("sqpack/ex2/ex2.ver"), "2023.09.28.0000.0000").unwrap();
+        std::fs::write(game.join("sqpack/ex10/ex10.ver"), "2023.09.28.0000.0000").unwrap();
         let mut stored: Vec<(String, u8, u64)> = vec![];
         for (pi, (cat, cid, token, dir, exp)) in places.iter().enumerate() {
             for (ci, chunk) in [0u32, 1, 10].iter().enumerate() {
@@ -142,7 +144,7 @@ fn native_gamedata_lookup() {
         let absent: Vec<String> = (0..12).map(|k| format!("{}/dir0/sub0/absent_{k}.dat", ["exd", "chara", "bg/ex1", "music/ex2"][k % 4])).collect();
         for order in 0..3usize {
             let mut gd = GameData::from_existing(Platform::Win32, game.to_str().unwrap()).expect("installation opens");
-            assert_eq!(gd.repositories.len(), 3, "base + two expansions");
+            assert_eq!(gd.repositories.len(), 4, "base + three expansion directories");
             let idx: Vec<usize> = match order { 0 => (0..stored.len()).collect(), 1 => (0..stored.len()).rev().collect(), _ => (0..stored.len()).map(|i| (i * 7) % stored.len()).collect() };
             if order == 2 { for a in absent.iter() { assert!(!gd.exists(a)); } }
             for i in idx {
